@@ -361,7 +361,7 @@ Fixpoint child_move_low (l : list (Z * Z)) (n : Z) (acc : list (Z * Z)) : MW (Z 
   | [] => ret (0, rev acc)
   | (fd, i) :: r =>
       if negb (fd =? i) && (0 <=? fd) && (fd <? n) then
-        let* q := sys_dupfd fd n in
+        let* q := sys_dupfd fd n true in
         if q <? 0 then let* e := get_errno in ret (- e, rev acc) else child_move_low r n ((q, i) :: acc)
       else child_move_low r n ((fd, i) :: acc)
   end.
